@@ -55,19 +55,19 @@ PROPS = {
                 rule="as C01 plus stand-alone IPA proofs; byte-for-byte comparison of the serialized proof and of the post-proof challenge with the Lean model (which reproduces the published cross-implementation vectors), under several CPU-count/GOMAXPROCS configurations."),
     "C04": dict(ties=['Schedules', 'Consts', 'GoIpa.Lemmas.IpaAlgebra', 'GoIpa.Lemmas.FoldingScalars'], level="proof", selftest=True, modes=[{"name": "default"}, {"name": "cpu3", "prefix": taskset(3)}, {"name": "cpu6-procs5", "prefix": taskset(6), "env": {"GOMAXPROCS": "5"}}],
                 rule="evaluation points 0,1,254,255,256,257,2^64-1,2^64,2^64+1,r-1,r-256,random x polynomials zero/constant/unit/sparse/r-1/random; result p(z) must be accepted, p(z)+1, p(z)-1 and 0 rejected (asserted on the implementation); barycentric value against direct Lagrange evaluation."),
-    "C05": dict(ties=['Consts'], level="proof",
+    "C05": dict(ties=['Formulas', 'Consts'], level="proof",
                 rule="per basis position and per window position: window values {0,1,2^(w-1)-1,2^(w-1),2^(w-1)+1,2^w-2,2^w-1} x carry-in {0,1}; all-ones carry chains; r-1, r-2, powers of two; single hot coefficient at the basis positions; short vectors; dense random; linearity/update triples; audit of precomputed table entries against (j+1)2^(wk)G_i."),
-    "C06": dict(level="proof",
+    "C06": dict(ties=['Formulas'], level="proof",
                 rule="byte strings of every length 0..70 (compressed) / 0..130 (uncompressed); random x classified independently (valid / on-curve non-subgroup / off-curve) each with its x+p alias and -x; uncompressed: both signs of y, x+p, y+p, wrong y, trailing byte; boundary values 0,1,p-1,p,p+1,2^256-1."),
-    "C07": dict(level="proof",
+    "C07": dict(ties=['Formulas'], level="proof",
                 rule="elements reached by random histories (Add, Sub, Double, Neg, ScalarMul, AddMixed, Set, Normalize, MSM both engines, decode) in representations Z=1 / rescaled / sign-flipped, including the all-zero value; Bytes, Equal matrix over all pairs, decode(Bytes)."),
-    "C08": dict(level="proof",
+    "C08": dict(ties=['Formulas'], level="proof",
                 rule="random group histories plus explicit law instances ((s+t)P, s(P+Q), 0*P, (r-1)P+P, P-P, P+O, -P) with special scalars; every operation also executed with the receiver aliasing each operand; all representations; identity-class operands of ScalarMul."),
     "C09": dict(ties=['GoIpa.Lemmas.Pippenger', 'GoIpa.Lemmas.PipBits', 'GoIpa.Props.C09Msm'], level="proof", workers=4, model_workers=16,
                 rule="n crossing every window-size threshold up to 4097 (thorough 32768), NbTasks in {0,1,2,3,5,8,16,17,64,1024}, Montgomery and regular scalars, >=10% small scalars, duplicates / opposite points / identity, zero and r-1 scalars; every implemented window c in {4..16,20,21,22} through the internal entry point with boundary digit patterns, with and without first-chunk split."),
     "C10": dict(ties=['Consts'], level="proof",
                 rule="honest 576-byte proofs, one byte short/long, lengths 0..1152, field-wise boundary values (p-1,p,p+1,0,2^256-1, non-subgroup, off-curve, x+p; r-1,r,r+1,s+r) at each of the 18 positions, random bit flips; reader scripts: one shot, 1 byte at a time, halves, data+EOF together, odd chunkings, I/O failure at offset k; writer failing at each Write call."),
-    "C11": dict(level="proof", race=True, modes=[{"name": "default"}, {"name": "conc16", "args": ["-conc", "16"], "workers": 1, "filter": "^batch ", "env": {"VERIF_BATCH_REPEAT": "40"}}],
+    "C11": dict(ties=['Formulas'], level="proof", race=True, modes=[{"name": "default"}, {"name": "conc16", "args": ["-conc", "16"], "workers": 1, "filter": "^batch ", "env": {"VERIF_BATCH_REPEAT": "40"}}],
                 rule="elements whose x/y is crafted (by solving the curve equation) to lie within 3 of k*r or to share the top limb of k*r (k=1..3), near 0 and near p; as C07: map-to-scalar-field of every element of random histories in all representations, single and batch variants, against the model's x/y computed on its own representation."),
     "C12": dict(ties=['Execute'], level="other", race=True, workers=1, model_workers=16,
                 modes=[{"name": "conc8-race", "args": ["-conc", "8"]},
@@ -87,7 +87,7 @@ PROPS = {
                 rule="Montgomery-limb boundary grid {0,1,2^63,2^64-1,q_i-1,q_i,q_i+1}^4 restricted to < r (1207 values): full cross product for add/sub/mul/cmp in thorough, all values plus 25k random pairs in quick; unary ops on grid, values within 2 of 0, r/2, r, R mod r, special and random values; div/exp pairs; BatchInvert with zeros at every position; every op through the assembly path, the assembly path with ADX disabled, the portable generic functions and all aliasing patterns."),
     "C16": dict(ties=['FrConsts'], level="proof",
                 rule="byte strings of every length 0..64 for the three decoders; values 0,1,r-1,r,r+1,2r-1,2r,p,2^256-1 in 32/33/40/64-byte encodings; canonical and just-non-canonical 32-byte values; the caller's buffer is compared before/after and decoded twice."),
-    "C17": dict(level="proof",
+    "C17": dict(ties=['Formulas'], level="proof",
                 rule="0,1,2,4,5,7,p-1,p-2,-5,d; every 2^k-th root of unity (k=0..32) and products with odd-order elements; every 8-bit value in each of the four discrete-log blocks with the other blocks zero/random/odd/even; random squares and non-squares in equal share; point recovery for random x with both sign requests."),
     "C18": dict(ties=['Consts', 'GoIpa.Lemmas.DivideOnDomain'], level="proof", modes=[{"name": "default"}, {"name": "cpu3", "prefix": taskset(3)}, {"name": "cpu7-procs5", "prefix": taskset(7), "env": {"GOMAXPROCS": "5"}}],
                 rule="both precomputed tables (512+510 entries); f in {random, unit vectors, constant, r-1, zero, X^255}; z in {256,257,r-1,2^200,random}: inner product with barycentric coefficients against direct Lagrange evaluation; DivideOnDomain for all 256 indices against the model and the defining relation q_i (i-k) = f_i - f_k."),
